@@ -35,7 +35,7 @@ EXPLANATION = ('(ii) completeness: each builder witness + its sibling lock, with
                'compiler and run_auth_scripts -> True for every permitted flag, False for a non-permitted one; (iii) exactness: each lock run '
                'from an arbitrary witness state, verdict compared with a reference predicate over the oracle (single sig both layouts, script '
                'hash, graftroot both paths), evaluated scripts are logged by a selective run_tape summary')
-MUST_REACH = ['complete_true', 'complete_disallowed', 'exact_true', 'exact_false', 'evaluated']
+MUST_REACH = ['complete_true', 'complete_disallowed', 'exact_true', 'exact_false', 'evaluated', 'multisig_true', 'multisig_false', 'multisig_builder']
 
 FIELD_LENS = {0: 2, 1: 1, 2: 3, 7: 1}
 
@@ -581,9 +581,123 @@ def _sig(v):
     return {'harness': v['harness'], 'obligation': v['obligation'], 'kind': p.get('kind'), 'layout': p.get('layout')}
 
 
+# ------------------------------------------------------------------------------ m-of-n multisignature lock
+def h_multisig_lock(c, pkg, n, m, allowed=3):
+    """make_multisig_lock over symbolic keys from an arbitrary witness state of m signature items (flag byte symbolic, whole
+    validity matrix left to the solver): unlocks iff every flag is permitted and the signatures can be assigned to m different
+    keys - one holder signing twice (with different flags / encodings), outsiders and repeats are models"""
+    import itertools
+    from . import c03
+    T = pkg.tools
+    cache, fields, keys, sigs = c03._setup(c, pkg, n, m, True, 'q')
+    lock = T.make_multisig_lock(keys, m, '%02x' % allowed)
+    ok, r, stack = _run_lock_from_state(pkg, lock.bytes, sigs, cache)
+    V = c03._matrix(c, fields, keys, sigs, True)
+    for i in range(m):
+        for j1, j2 in itertools.combinations(range(n), 2):
+            c.assume(mk_bool(z3.Not(z3.And(V[i][j1], V[i][j2]))))
+    c.input('V', [[mk_bool(x) for x in row] for row in V])
+    permitted = sym_and(*[_subset(s_[64], allowed) for s_ in sigs])
+    inj = [z3.And(*[V[i][p[i]] for i in range(m)]) for p in itertools.permutations(range(n), m)]
+    matching = mk_bool(z3.Or(*inj))
+    c.check('multisig_lock_opens_iff_m_different_holders_signed', ok == sym_and(permitted, matching), n=n, m=m)
+    c.reach('multisig_true' if ok is True or (ok is not False and bool(ok)) else 'multisig_false')
+
+
+def r_multisig_lock(inputs, params, obligation):
+    """realise the model: real keys, real signatures according to the validity matrix V, real lock and interpreter"""
+    import tapescript
+    from . import c03
+    fields, keys, sigs = c03._realise(inputs, dict(params, flags=True, fset='q'))
+    allowed = params.get('allowed', 3)
+    lock = tapescript.make_multisig_lock(keys, params['m'], '%02x' % allowed)
+    want = c03._oracle(fields, keys, sigs, allowed)
+    st = tapescript.Stack()
+    for s_ in sigs:
+        st.put(s_)
+    cache = {f'sigfield{i + 1}': v for i, v in fields.items()}
+    r = outcome_of(tapescript.run_tape, tapescript.Tape(lock.bytes), st, cache)
+    got = r[0] == 'ok' and st.list() == [b'\xff']
+    return {'reproduced': got != (want is True), 'got': got, 'want': repr(want), 'outcome': repr(r)[:120]}
+
+
+def h_multisig_builder(c, pkg, n, signers, flags):
+    """the witnesses of the listed holders (make_single_sig_witness, concatenated) against make_multisig_lock of all n keys"""
+    T, F = pkg.tools, pkg.functions
+    stubs.CONFIG.collision_free = False
+    fields, sf = _sigfields(c, 0b011)
+    seeds = [c.bytes(f'seed{j}', 32) for j in range(n)]
+    for i in range(n):
+        for j in range(i):
+            c.assume(sym_not(bytes_eq(seeds[i], seeds[j])))
+    pubs = [_pub_for(sd) for sd in seeds]
+    for i in range(n):
+        for j in range(i):
+            c.assume(sym_not(bytes_eq(pubs[i], pubs[j])))
+    allowed = 3
+    with KeyOracle(pkg):
+        lock = T.make_multisig_lock(pubs, len(signers), '%02x' % allowed)
+        wit = None
+        from .c04 import _pushes
+        for j, fl in zip(signers, flags):
+            w = T.make_single_sig_witness(seeds[j], sf, '%02x' % fl)
+            wit = w if wit is None else wit + w
+            # a signature verifies under its signer's key only (unforgeability: no second key validates it)
+            sig = mk_bytes(next(_pushes(pkg, w.bytes)))
+            msg = ref_message(fields, fl)
+            for k2 in range(n):
+                if k2 != j:
+                    c.assume(mk_bool(z3.Not(stubs.valid_term(pubs[k2], msg, sig[:64]))))
+        r = outcome_of(F.run_auth_scripts, [wit, lock], sf)
+    c.check('never_raises', r[0] == 'ok', got=repr(r)[:200])
+    if r[0] != 'ok':
+        return
+    distinct = len(set(signers)) == len(signers)
+    permitted = all((fl & ~allowed & 0xff) == 0 for fl in flags)
+    c.check('quorum_of_different_holders_unlocks_and_repeats_do_not', r[1] == (distinct and permitted), signers=signers, flags=flags)
+    c.reach('multisig_builder')
+
+
+def r_multisig_builder(inputs, params, obligation):
+    import tapescript
+    import tapescript.tools as RT
+    from nacl.signing import SigningKey
+    n, signers, flags = params['n'], params['signers'], params['flags']
+    seeds = [inputs.get(f'seed{j}', bytes([j + 1]) * 32) for j in range(n)]
+    pubs = [bytes(SigningKey(sd).verify_key) for sd in seeds]
+    sf = {k: v for k, v in inputs.items() if k.startswith('sigfield')}
+    lock = RT.make_multisig_lock(pubs, len(signers), '03')
+    wit = None
+    for j, fl in zip(signers, flags):
+        w = RT.make_single_sig_witness(seeds[j], sf, '%02x' % fl)
+        wit = w if wit is None else wit + w
+    got = tapescript.run_auth_scripts([wit, lock], sf)
+    want = len(set(signers)) == len(signers) and all((fl & ~3 & 0xff) == 0 for fl in flags)
+    return {'reproduced': got != want, 'got': got, 'want': want}
+
+
+def _p_ms_lock(tier):
+    out = [{'n': 1, 'm': 1}, {'n': 2, 'm': 1}, {'n': 2, 'm': 2}, {'n': 3, 'm': 2}]
+    if tier != 'quick':
+        out += [{'n': 3, 'm': 3}, {'n': 3, 'm': 1}, {'n': 2, 'm': 2, 'allowed': 0}, {'n': 3, 'm': 2, 'allowed': 0xff}]
+    return out
+
+
+def _p_ms_builder(tier):
+    out = [{'n': 2, 'signers': [0, 1], 'flags': [0, 0]}, {'n': 2, 'signers': [1, 0], 'flags': [1, 2]},
+           {'n': 2, 'signers': [0, 0], 'flags': [0, 1]}, {'n': 3, 'signers': [2, 0], 'flags': [0, 3]},
+           {'n': 3, 'signers': [1, 1], 'flags': [2, 1]}, {'n': 2, 'signers': [0, 1], 'flags': [0, 4]}]
+    if tier != 'quick':
+        out += [{'n': 3, 'signers': [0, 1, 2], 'flags': [0, 1, 2]}, {'n': 3, 'signers': [0, 2, 0], 'flags': [0, 1, 2]},
+                {'n': 3, 'signers': [2, 1], 'flags': [3, 3]}]
+    return out
+
+
 HARNESSES = [
     HarnessSpec('complete', h_complete, _p_complete, replay=r_complete, signature=_sig),
     HarnessSpec('exact_single', h_exact_single, _p_exact_single, replay=r_exact, signature=_sig),
     HarnessSpec('exact_scripthash', h_exact_scripthash, _p_exact_sh, replay=r_exact, signature=_sig),
     HarnessSpec('exact_graftroot', h_exact_graftroot, _p_exact_g, replay=r_exact, signature=_sig),
+    HarnessSpec('multisig_lock', h_multisig_lock, _p_ms_lock, replay=r_multisig_lock, signature=_sig),
+    HarnessSpec('multisig_builder', h_multisig_builder, _p_ms_builder, replay=r_multisig_builder, signature=_sig),
 ]
